@@ -25,6 +25,7 @@ import (
 	"sort"
 	"strconv"
 	"strings"
+	"syscall"
 	"time"
 
 	"shanhu.io/g/caco3"
@@ -50,6 +51,7 @@ type wsOp struct {
 	files   []bfile
 	srcs    []string
 	targets []string
+	special []string   // things under <root>/src that are NOT source files: "d:<name>" a directory, "p:<name>" a named pipe, "l:<name>" a symlink (a source)
 	bad     []string   // rules (qualified names) whose execution fails: a file_set that lists a rule among its files
 	more    [][]string // further Build calls on the SAME Builder: their target lists (t2, t3)
 	wd      string     // work dir of the builder, relative to <root>/src ("" = the workspace root)
@@ -117,6 +119,9 @@ func (o *wsOp) line() string {
 	if len(o.bad) > 0 {
 		l += " bad=" + hlist(o.bad, ",")
 	}
+	if len(o.special) > 0 {
+		l += " sp=" + hlist(o.special, ",")
+	}
 	if o.wd != "" {
 		l += " wd=" + hs(o.wd)
 	}
@@ -151,6 +156,9 @@ func parseOp(line string) (*wsOp, bool) {
 	o.dirs, o.srcs, o.targets = unlist(d, ","), unlist(s, ","), unlist(t, ",")
 	if v, ok := kv(ws[1:], "bad"); ok {
 		o.bad = unlist(v, ",")
+	}
+	if v, ok := kv(ws[1:], "sp"); ok {
+		o.special = unlist(v, ",")
 	}
 	for _, k := range []string{"t2", "t3"} {
 		if v, ok := kv(ws[1:], k); ok {
@@ -220,6 +228,21 @@ func writeWorkspace(root string, o *wsOp) error {
 		os.MkdirAll(filepath.Dir(fp), 0o755)
 		if err := os.WriteFile(fp, []byte("src "+s), 0o644); err != nil {
 			return err
+		}
+	}
+	for _, sp := range o.special {
+		if len(sp) < 3 || sp[1] != ':' {
+			continue
+		}
+		fp := filepath.Join(root, "src", filepath.FromSlash(sp[2:]))
+		os.MkdirAll(filepath.Dir(fp), 0o755)
+		switch sp[0] {
+		case 'd':
+			os.MkdirAll(fp, 0o755)
+		case 'p':
+			syscall.Mkfifo(fp, 0o644)
+		case 'l': // dangling symlink: a symlink is a source whatever it points to
+			os.Symlink("nowhere", fp)
 		}
 	}
 	for _, f := range o.files {
@@ -592,6 +615,11 @@ func (r *reading) analyse(o *wsOp) (reach map[string]bool, cycle, dangling bool)
 	srcs := map[string]bool{}
 	for _, s := range o.srcs {
 		srcs[s] = true
+	}
+	for _, sp := range o.special {
+		if strings.HasPrefix(sp, "l:") {
+			srcs[sp[2:]] = true
+		}
 	}
 	reach = map[string]bool{}
 	color := map[string]int{}
@@ -1359,6 +1387,37 @@ func reverse(l []string) []string {
 	return out
 }
 
+// dependencies, targets and Files that name a directory, a named pipe, the package
+// directory itself: only regular files and symlinks are source files, anything
+// else is a dangling dependency
+func (g *gen) specialSources() {
+	b := func(n string, deps ...string) decl { return decl{kind: 'b', name: n, a: deps} }
+	f := func(n string, files []string, incs ...string) decl { return decl{kind: 'f', name: n, a: files, b: incs} }
+	special := []string{"d:p/sub", "d:p/data", "p:p/pipe", "d:p/deep/er", "l:p/link", "d:z"}
+	for _, dep := range []string{"sub", "", ".", "data", "pipe", "deep", "deep/er", "link", "s", "/z", "/p", "/", "nosuch", "sub/", "q"} {
+		for _, decls := range [][]decl{
+			{b("a", dep)},
+			{b("a", "s", dep), b("c", "a")},
+			{f("a", []string{dep})},
+			{f("a", []string{"s", dep}), b("c", "a.fileset")},
+		} {
+			for _, t := range [][]string{{"p/a"}, {"p/" + decls[len(decls)-1].name}} {
+				g.add(&wsOp{dirs: []string{"p"}, files: []bfile{{dir: "p", decls: decls}, {dir: "p/q", decls: []decl{b("r")}}},
+					srcs: []string{"p/s", "p/sub/inner.txt"}, special: special, targets: t}, true)
+				g.rep.Count("special-objects:as-dependency")
+			}
+		}
+	}
+	// as requested targets
+	for _, t := range []string{"p/sub", "p", "p/pipe", "p/data", "p/link", "p/s", "z", "p/deep/er"} {
+		g.add(&wsOp{dirs: []string{"p"}, files: []bfile{{dir: "p", decls: []decl{b("a")}}},
+			srcs: []string{"p/s"}, special: special, targets: []string{"p/a", t}}, true)
+		g.add(&wsOp{dirs: []string{"p"}, files: []bfile{{dir: "p", decls: []decl{b("a")}}},
+			srcs: []string{"p/s"}, special: special, targets: []string{t}}, true)
+		g.rep.Count("special-objects:as-target")
+	}
+}
+
 // random graphs over several packages
 func (g *gen) randomGraphs(n int, maxRules int) {
 	for i := 0; i < n; i++ {
@@ -1629,7 +1688,7 @@ func main() {
 	rep.Rule = "one op = one scratch workspace (bundle / file_set / sub_builds declarations over 1-3 packages, source files) + targets, " +
 		"built by the real Builder in a child process (every second op with AlwaysRebuild): all graphs of 2 rules over {r0, r1, source, missing} and of 3 (thorough: 4) rules over the rules x target subsets, " +
 		"every declaration permutation x target subset of fixed shapes (diamond, chain, self-loop, 2/4-cycle, cycle behind the memo, dangling, duplicate, output/rule collision, file sets, unnamed) and random 2-3 rule graphs, " +
-		"rules whose execution fails below dependents, histories of two and three Build calls on one Builder (first failing or sound), build files with several sub_builds statements, a BUILD.caco3 in the workspace root outside src, build files with 1..100 statements that do not parse (below, at, above the error cap), builders started in work dirs at depth 0..2 with relative, ./, ../ and absolute targets over same-named nodes, target lists with source files before, between and after rule targets, sub-build directory strings (., empty, x/.., q, /q, ../q ...) singly and in pairs, random multi-package graphs (duplicates across files, long cycles, dangling, collisions, unnamed), long chains; " +
+		"dependencies / targets / Files naming directories, named pipes and the package directory, rules whose execution fails below dependents, histories of two and three Build calls on one Builder (first failing or sound), build files with several sub_builds statements, a BUILD.caco3 in the workspace root outside src, build files with 1..100 statements that do not parse (below, at, above the error cap), builders started in work dirs at depth 0..2 with relative, ./, ../ and absolute targets over same-named nodes, target lists with source files before, between and after rule targets, sub-build directory strings (., empty, x/.., q, /q, ../q ...) singly and in pairs, random multi-package graphs (duplicates across files, long cycles, dangling, collisions, unnamed), long chains; " +
 		"distinct = distinct op line; every op is non-trivial (it loads at least one build file)"
 	work := f.Work
 	if work == "" {
@@ -1675,6 +1734,7 @@ func main() {
 		g.syntaxErrors()
 		g.histories()
 		g.failingRules()
+		g.specialSources()
 		g.severalSubBuilds()
 		g.rootBuildFile()
 		g.shapes()
